@@ -56,6 +56,12 @@ def alphabet(seed):
     return full, core_
 
 
+def magic_alphabet(seed):
+    """lines that look like magic encoding comments, and '#' lines, in every position"""
+    a = POOL_ASCII[seed % len(POOL_ASCII)]
+    return ["# coding: utf-8\n", "## -*- coding: utf-8 -*-\n", "# coding: utf-8\r\n", "# coding: utf-8", "#" + a + "\n", "##" + a + "\n", "\n", a, " ", "${'lit'}", "\\\n"]
+
+
 # --------------------------------------------------------------------------
 # reference segmenter: documented rules only; None = DONT_CARE
 
@@ -66,7 +72,14 @@ _LIT_EXPR = re.compile(r"\$\{'([A-Za-z0-9 ]*)'\}")
 _IF_LINE = re.compile(r"[ \t]*% (?:if True:|endif)(?:\r?\n|\Z)")
 
 
+_CODING = re.compile(r"#.*coding[:=]\s*([-\w.]+).*\r?\n")
+
+
 def ref_render(s, units=False):
+    # a magic encoding comment is one on the FIRST line (one or two '#'): that line is no content
+    m = _CODING.match(s)
+    if m:
+        s = s[m.end():]
     out = []
     i, n = 0, len(s)
     joined = False  # previous line ended with backslash-newline
@@ -506,7 +519,7 @@ def _run_job(job, st):
         full, core_ = alphabet(seed)
         seen = set()
         sh, ns = job["shard"], job["nshards"]
-        for alpha, k in ((full, b["k_full"]), (core_, b["k_core"])):
+        for alpha, k in ((full, b["k_full"]), (core_, b["k_core"]), (magic_alphabet(seed), b["k_full"])):
             for n in range(0, k + 1):
                 for w in itertools.product(alpha, repeat=n):
                     s = "".join(w)
